@@ -37,6 +37,11 @@ MOTIFS = {
     'xaxis4': (['S', 'P', 'N', 'O'], [(0, 0, 0), (3.0, 0, 0), (1.0, 0.5, 0.5), (2.0, -0.4, 0.7)]),
     # point set with a two-fold pseudo-symmetry (about the C-F axis) that swaps the two H and is broken only by the ELEMENTS of N and O
     'pseudo6': (['C', 'H', 'H', 'F', 'N', 'O'], [(0, 0, 0), (1.1, 0, 0), (-1.1, 0, 0), (0, 1.3, 0), (0, -0.5, 1.2), (0, -0.5, -1.2)]),
+    # chiral only through a 0.6 A out-of-plane atom (a tolerance that grows with the coordinate value accepts the other hand far from the origin)
+    'chiralflat4': (['C', 'N', 'O', 'H'], [(0.0, 1.5, 0.0), (2.0, 0.0, 0.0), (-2.0, 0.0, 0.0), (0.3, 0.4, 0.6)]),
+    'chiralflat4F': (['C', 'N', 'O', 'F'], [(0.0, 1.5, 0.0), (2.0, 0.0, 0.0), (-2.0, 0.0, 0.0), (0.3, 0.4, 0.6)]),
+    # two-fold pseudo-symmetry about z that exchanges the two axis atoms (H..H is the longest pair) and is broken only by the elements N / O
+    'pseudoaxis5': (['C', 'H', 'H', 'N', 'O'], [(0, 0, 0), (1.5, 0, 0), (-1.5, 0, 0), (0, 1.2, 0.3), (0, -1.2, 0.3)]),
     # first element occurs at two atoms related only by a mirror plane (O, N, F lie in the bisector plane of C-C; no proper symmetry)
     'mirror-pair5': (['C', 'C', 'O', 'N', 'F'], [(0.75, 0, 0), (-0.75, 0, 0), (0, 1.2, 0.3), (0, -0.4, 1.3), (0, -1.0, -0.8)]),
     # three H interchangeable with respect to the C listed before them; the later O and H tell them apart
